@@ -23,6 +23,9 @@ theorem insert_eq (table : Bytes) (cols : List String) (vals : List Val) :
     insert table cols vals =
       (relationOffset table >>= fun off => fetch off >>= fun _ => relationSchema table >>= fun schema =>
         if (colsOf schema cols).length != vals.length then throw .colCountMismatch else
+        match checkColumns schema (colsOf schema cols) with
+        | some e => throw e
+        | none =>
         encodeRow schema ((colsOf schema cols).zip vals).reverse >>= fun buf =>
         btInsert ⟨off⟩ buf >>= fun r =>
           if r.1.root != off then
@@ -61,6 +64,7 @@ theorem insert_refines (s : Store) (pt sch : Levels) (tbls : List (Bytes × Leve
     (table : Bytes) (t : Levels) (ht : (table, t) ∈ tbls) (cols : List String) (vals : List Val)
     (schema : List FieldDef) (buf : Bytes) (hsch : schemaOf sch table = some schema)
     (hcols : (colsOf schema cols).length = vals.length)
+    (hnames : checkColumns schema (colsOf schema cols) = none)
     (henc : encodeTuple schema ((colsOf schema cols).zip vals).reverse = .ok buf)
     (hlen : buf.length ≤ c_maxValueSize)
     (t' : Levels) (nf' : Nat)
@@ -103,7 +107,7 @@ theorem insert_refines (s : Store) (pt sch : Levels) (tbls : List (Bytes × Leve
        else pure [(⟨c_OpInsert, s.hdr.nextLSN, rootOff t, s.hdr.lastKey + 1, buf⟩ : WalRec)]) s4 := by
     rw [insert_eq, bind_ok e1, bind_ok e2, bind_ok e3]
     have hc : ((colsOf schema cols).length != vals.length) = false := by simp [hcols]
-    simp only [hc, Bool.false_eq_true, if_false]
+    simp only [hc, Bool.false_eq_true, if_false, hnames]
     rw [bind_ok e4, bind_ok e5]
   have hins3 : insertAppend t (s.hdr.lastKey + 1) s.hdr.nextLSN buf s3.hdr.nextFree = .ok (t', nf') := by
     rw [hs03.2]; exact hins
@@ -273,7 +277,7 @@ example : ∃ s' ptF logs, insert tname [] [] st0 = .ok logs s' ∧
     Cat s' ptF sch0 (setTable [(tname, t0)] tname
       ⟨[(⟨12288, 7, false, false, 0, 0, [⟨4, false, []⟩]⟩, true)], []⟩) ∧ s'.hdr.lastKey = 4 := by
   obtain ⟨s', ptF, logs, e, hc, hk, _⟩ := insert_refines st0 pt0 sch0 [(tname, t0)] cat0 tname t0 (by simp)
-    [] [] [] [] (by decide) (by decide) rfl (by decide)
+    [] [] [] [] (by decide) (by decide) rfl rfl (by decide)
     ⟨[(⟨12288, 7, false, false, 0, 0, [⟨4, false, []⟩]⟩, true)], []⟩ 16384 rfl (by decide) (by decide)
     (by decide)
   exact ⟨s', ptF, logs, e, hc, hk⟩
